@@ -947,6 +947,8 @@ class SymInt:
 
     def to_bytes(self, length=1, byteorder="big", *, signed=False):
         from .seq import mk_seq
+        if isinstance(length, (SymInt, SymBool)):
+            length = cur().concretize(length)
         if signed:
             raise EngineError("to_bytes(signed=True) on symbolic int")
         self._exact("to_bytes")
@@ -1127,6 +1129,10 @@ class Explorer:
         return "%s!%d" % (stem, self.fresh)
 
     def _solve(self, extra=None, fresh=False):
+        if self.deadline and time.time() > self.deadline:
+            self.stats.inconclusive += 1
+            self.stats.notes.append("time budget exhausted inside a path")
+            raise SolverUnknown("deadline")
         assumptions = list(self.pc)
         if extra is not None:
             assumptions.append(extra)
